@@ -140,7 +140,12 @@ def mutate_tokens(rng, data, fault):
                      'comment-inside': '<!-- c -->', 'pi-inside': '<?pi x?>'}[fault]
         out = out.replace(mark, construct, 1)
         if fault == 'entity-reference':
-            out = '<!DOCTYPE edxml [<!ENTITY foo "bar"><!ENTITY big "&foo;&foo;&foo;">]>' + out
+            # the entities are declared in the document, or the document points at an external subset (which is never read:
+            # the reference stays in the tree undeclared), or declares something else
+            out = rng.choice(['<!DOCTYPE edxml [<!ENTITY foo "bar"><!ENTITY big "&foo;&foo;&foo;">]>',
+                              '<!DOCTYPE edxml [<!ENTITY foo "bar"><!ENTITY big "&foo;&foo;&foo;">]>',
+                              '<!DOCTYPE edxml SYSTEM "edxml.dtd">', '<!DOCTYPE edxml PUBLIC "-//x//y//EN" "edxml.dtd">',
+                              '<!DOCTYPE edxml SYSTEM "edxml.dtd" [<!ELEMENT edxml ANY>]>']) + out
         return out.encode('utf-8')
     if fault == 'redefine-ontology':
         # the definitions arrive a second time, one of them without one of its attributes (or with another value), under a
